@@ -61,6 +61,7 @@ import (
 type Value struct {
 	Nil       bool   `json:"nil,omitempty"`       // response without data
 	NilTarget bool   `json:"nil_target,omitempty"` // attestation data without target
+	SlotOff   int64  `json:"slot_off,omitempty"`   // attestation data: the slot the data carries is Input.Slot+SlotOff (a node answering for another slot)
 	Source    uint64 `json:"source,omitempty"`    // attestation data
 	Target    uint64 `json:"target,omitempty"`
 	Root      uint64 `json:"root,omitempty"` // attestation data: head root id; root strategies: the root id
@@ -91,6 +92,8 @@ type Input struct {
 	Values    []Value     `json:"values"`
 	Provs     []Prov      `json:"provs"`
 	Trace     bool        `json:"trace,omitempty"` // run the strategy at trace log level
+	NowOff    int64       `json:"now_off,omitempty"` // the chain time's current slot is Slot+NowOff (the duty slot is not "now")
+	Warm      bool        `json:"warm,omitempty"`  // the same service instance has served another request before (every node answering at once)
 	Tags      []string    `json:"tags,omitempty"`
 }
 
@@ -160,13 +163,16 @@ func rootID(root phase0.Root) uint64 {
 	return r
 }
 
+// attSlot is the slot the attestation data of a value carries.
+func attSlot(in *Input, v Value) uint64 { return uint64(int64(in.Slot) + v.SlotOff) }
+
 func buildAtt(in *Input, vid int) *phase0.AttestationData {
 	v := in.Values[vid]
 	if v.Nil {
 		return nil
 	}
 	d := &phase0.AttestationData{
-		Slot:            phase0.Slot(in.Slot),
+		Slot:            phase0.Slot(attSlot(in, v)),
 		Index:           phase0.CommitteeIndex(vid),
 		BeaconBlockRoot: rootOf(v.Root),
 		Source:          &phase0.Checkpoint{Epoch: phase0.Epoch(v.Source), Root: rootOf(5000 + v.Source)},
@@ -359,6 +365,7 @@ type script struct {
 	in    *Input
 	idx   int
 	calls atomic.Int32
+	warm  atomic.Bool // warm-up request: every node answers at once (see Input.Warm)
 }
 
 func (s *script) name() string { return fmt.Sprintf("node-%d", s.idx) }
@@ -367,6 +374,14 @@ func (s *script) name() string { return fmt.Sprintf("node-%d", s.idx) }
 func (s *script) wait(ctx context.Context) error {
 	s.calls.Add(1)
 	p := s.in.Provs[s.idx]
+	if s.warm.Load() {
+		// the request served before the observed one: nodes with content give it at once; for the
+		// "first" strategies (response channel of capacity 1) only the first such node does
+		if p.Beh == "respond" && (template(s.in.Strategy) != "first" || s.idx == firstResponder(s.in)) {
+			return nil
+		}
+		return errors.New("scripted failure (warm-up)")
+	}
 	if p.Beh == "never" {
 		<-ctx.Done()
 		return ctx.Err()
@@ -402,6 +417,15 @@ func (s *script) wait(ctx context.Context) error {
 		}
 	}
 	return nil
+}
+
+func firstResponder(in *Input) int {
+	for i, p := range in.Provs {
+		if p.Beh == "respond" {
+			return i
+		}
+	}
+	return -1
 }
 
 func meta() map[string]any { return map[string]any{} }
@@ -485,7 +509,7 @@ func call(ctx context.Context, in *Input, scripts []*script) (obs Observed) {
 	mon := nullmetrics.New()
 	T := time.Duration(in.Timeout)
 	ct := mocks.NewChainTime(in.SPE)
-	ct.SetSlot(in.Slot)
+	ct.SetSlot(uint64(int64(in.Slot) + in.NowOff))
 	cache := rootCache{}
 	for _, e := range in.Cache {
 		cache[rootOf(e[0])] = phase0.Slot(e[1])
@@ -493,6 +517,22 @@ func call(ctx context.Context, in *Input, scripts []*script) (obs Observed) {
 	fail := func(err error) Observed { return Observed{Res: "panic", Note: "constructor: " + err.Error()} }
 	done := func(id uint64, note string) {
 		obs.Res, obs.ID, obs.Note = "val", id, note
+	}
+	// Input.Warm: the service instance first serves another request (same options, every node
+	// answering at once); whatever it keeps from it must not show in the observed request
+	warmup := func(f func()) {
+		if !in.Warm {
+			return
+		}
+		for _, s := range scripts {
+			s.warm.Store(true)
+		}
+		f()
+		synctest.Wait()
+		for _, s := range scripts {
+			s.warm.Store(false)
+			s.calls.Store(0)
+		}
 	}
 	var start time.Time
 	finish := func(err error, isNil bool) bool {
@@ -527,6 +567,7 @@ func call(ctx context.Context, in *Input, scripts []*script) (obs Observed) {
 		if err != nil {
 			return fail(err)
 		}
+		warmup(func() { _, _ = svc.AttestationData(ctx, &api.AttestationDataOpts{Slot: phase0.Slot(in.Slot), CommitteeIndex: 3}) })
 		start = time.Now()
 		resp, err := svc.AttestationData(ctx, &api.AttestationDataOpts{Slot: phase0.Slot(in.Slot), CommitteeIndex: 3})
 		if finish(err, err == nil && (resp == nil || resp.Data == nil)) {
@@ -546,6 +587,9 @@ func call(ctx context.Context, in *Input, scripts []*script) (obs Observed) {
 		if err != nil {
 			return fail(err)
 		}
+		warmup(func() {
+			_, _ = svc.AggregateAttestation(ctx, &api.AggregateAttestationOpts{Slot: phase0.Slot(in.Slot), AttestationDataRoot: rootOf(9)})
+		})
 		start = time.Now()
 		resp, err := svc.AggregateAttestation(ctx, &api.AggregateAttestationOpts{Slot: phase0.Slot(in.Slot), AttestationDataRoot: rootOf(9)})
 		if finish(err, err == nil && (resp == nil || resp.Data == nil)) {
@@ -571,6 +615,9 @@ func call(ctx context.Context, in *Input, scripts []*script) (obs Observed) {
 		if err != nil {
 			return fail(err)
 		}
+		warmup(func() {
+			_, _ = svc.Proposal(ctx, &api.ProposalOpts{Slot: phase0.Slot(in.Slot), Graffiti: [32]byte{'v', 'o', 'u', 'c', 'h'}})
+		})
 		start = time.Now()
 		resp, err := svc.Proposal(ctx, &api.ProposalOpts{Slot: phase0.Slot(in.Slot), Graffiti: [32]byte{'v', 'o', 'u', 'c', 'h'}})
 		if finish(err, err == nil && (resp == nil || resp.Data == nil)) {
@@ -596,6 +643,9 @@ func call(ctx context.Context, in *Input, scripts []*script) (obs Observed) {
 		if err != nil {
 			return fail(err)
 		}
+		warmup(func() {
+			_, _ = svc.SyncCommitteeContribution(ctx, &api.SyncCommitteeContributionOpts{Slot: phase0.Slot(in.Slot), SubcommitteeIndex: 1, BeaconBlockRoot: rootOf(77)})
+		})
 		start = time.Now()
 		resp, err := svc.SyncCommitteeContribution(ctx, &api.SyncCommitteeContributionOpts{Slot: phase0.Slot(in.Slot), SubcommitteeIndex: 1, BeaconBlockRoot: rootOf(77)})
 		if finish(err, err == nil && (resp == nil || resp.Data == nil)) {
@@ -619,6 +669,7 @@ func call(ctx context.Context, in *Input, scripts []*script) (obs Observed) {
 		if err != nil {
 			return fail(err)
 		}
+		warmup(func() { _, _ = svc.BeaconBlockRoot(ctx, &api.BeaconBlockRootOpts{Block: "head"}) })
 		start = time.Now()
 		resp, err := svc.BeaconBlockRoot(ctx, &api.BeaconBlockRootOpts{Block: "head"})
 		if finish(err, err == nil && (resp == nil || resp.Data == nil)) {
@@ -637,6 +688,7 @@ func call(ctx context.Context, in *Input, scripts []*script) (obs Observed) {
 		if err != nil {
 			return fail(err)
 		}
+		warmup(func() { _, _ = svc.BeaconBlockHeader(ctx, &api.BeaconBlockHeaderOpts{Block: "head"}) })
 		start = time.Now()
 		resp, err := svc.BeaconBlockHeader(ctx, &api.BeaconBlockHeaderOpts{Block: "head"})
 		if finish(err, err == nil && (resp == nil || resp.Data == nil)) {
@@ -649,6 +701,7 @@ func call(ctx context.Context, in *Input, scripts []*script) (obs Observed) {
 		if err != nil {
 			return fail(err)
 		}
+		warmup(func() { _, _ = svc.SignedBeaconBlock(ctx, &api.SignedBeaconBlockOpts{Block: "head"}) })
 		start = time.Now()
 		resp, err := svc.SignedBeaconBlock(ctx, &api.SignedBeaconBlockOpts{Block: "head"})
 		if finish(err, err == nil && (resp == nil || resp.Data == nil)) {
@@ -704,7 +757,7 @@ func rawTerm(in *Input, vid int) string {
 	v := in.Values[vid]
 	switch family(in.Strategy) {
 	case "att":
-		return App("RAtt", Bool(v.Nil), Bool(v.NilTarget), N(in.Slot), N(v.Source), N(v.Target), N(v.Root))
+		return App("RAtt", Bool(v.Nil), Bool(v.NilTarget), N(attSlot(in, v)), N(v.Source), N(v.Target), N(v.Root))
 	case "agg":
 		return App("RAgg", Bool(v.Nil), N(v.Set), N(v.Len))
 	case "prop":
@@ -879,6 +932,125 @@ func genValue(r *Rand, in *Input, valid bool) Value {
 	}
 }
 
+// genForeignSlot: attestation data for another slot than the requested one.
+func genForeignSlot(r *Rand, in *Input) Value {
+	spe := int64(in.SPE)
+	epoch := in.Slot / in.SPE
+	pos := int64(in.Slot % in.SPE)
+	v := Value{Root: uint64(r.Range(1, 5))}
+	behind := func() {
+		// a head the cache knows must not be later than the data's slot (the score's 1+slot-head is
+		// unsigned): such a value has a head root of its own (6 + its index)
+		v.Root = uint64(6 + len(in.Values))
+		if r.Chance(2, 3) {
+			in.Cache = append(in.Cache, [2]uint64{v.Root, attSlot(in, v) - uint64(r.Intn(4))})
+		}
+	}
+	switch r.Intn(8) {
+	case 0, 1, 2: // a later epoch, self-consistent: higher target, higher score
+		v.SlotOff = []int64{spe, spe - pos, 2 * spe}[r.Intn(3)]
+		v.Target = attSlot(in, v) / in.SPE
+		v.Source = v.Target - uint64(r.Range(0, 1)) - 1
+		if v.Source < epoch {
+			v.Source = epoch
+		}
+	case 3, 4: // an earlier epoch, self-consistent
+		v.SlotOff = -[]int64{spe, pos + 1}[r.Intn(2)]
+		v.Target = attSlot(in, v) / in.SPE
+		v.Source = v.Target - 1
+		behind()
+	case 5: // another slot of the duty's epoch: acceptable
+		v.SlotOff = int64(r.Intn(int(in.SPE))) - pos
+		v.Target, v.Source = epoch, epoch-1
+		if v.SlotOff < 0 {
+			behind()
+		}
+	case 6: // a slot of a later epoch with the duty's target epoch: passes the target-epoch rule
+		v.SlotOff = spe
+		v.Target, v.Source = epoch, epoch-1
+	default: // a slot of an earlier epoch with the duty's target epoch
+		v.SlotOff = -(pos + 1)
+		v.Target, v.Source = epoch, epoch-uint64(r.Range(1, 2))
+		behind()
+	}
+	return v
+}
+
+// minorityFirst rewrites the nodes of a majority case: a few nodes report one value early, more
+// nodes another value later (all within the timeout), the rest fail, stay silent or are late.  The
+// threshold of attestationdata/majority is at most the early count, i.e. below a strict majority
+// of the nodes: the early value must not be taken before the later, more frequent one is in.
+func minorityFirst(r *Rand, in *Input) bool {
+	T, S := in.Timeout, in.Timeout/2
+	att := template(in.Strategy) == "majatt"
+	// two distinct acceptable values at indices 0 and 1
+	if att {
+		v0, v1 := genValue(r, in, true), genValue(r, in, true)
+		rest := append([]Value{}, in.Values...)
+		in.Values = append([]Value{v0, v1}, rest...)
+	} else {
+		a := uint64(r.Range(1, 5))
+		b := a%5 + 1
+		in.Values = []Value{{Root: a}, {Root: b}}
+	}
+	n := r.Range(3, 6)
+	early := r.Range(1, (n-1)/2)
+	late := r.Range(early+1, n-early)
+	if r.Chance(1, 6) {
+		late = early // a tie between the early and the late value
+	}
+	used := map[int64]bool{}
+	pick := func(lo, hi int64) int64 {
+		for {
+			t := lo + int64(r.Intn(int((hi-lo)/ms)+1))*ms + int64(r.Intn(3))
+			if !used[t] && t != S && t != T && t > 0 {
+				used[t] = true
+				return t
+			}
+		}
+	}
+	var provs []Prov
+	for i := 0; i < early; i++ {
+		provs = append(provs, Prov{T: pick(ms, S/4), Beh: "respond", Val: 0})
+	}
+	lateLo, lateHi := S/4+ms, S-2*ms
+	if att && r.Chance(1, 2) {
+		lateLo, lateHi = S+ms, T-2*ms // attestationdata/majority: the soft timeout decides nothing
+	}
+	for i := 0; i < late; i++ {
+		provs = append(provs, Prov{T: pick(lateLo, lateHi), Beh: "respond", Val: 1})
+	}
+	for len(provs) < n {
+		switch r.Intn(4) {
+		case 0:
+			provs = append(provs, Prov{Beh: "never"})
+		case 1:
+			provs = append(provs, Prov{T: pick(ms, T-ms), Beh: "error", Err: "plain"})
+		case 2:
+			provs = append(provs, Prov{T: pick(T+ms, 2*T), Beh: "respond", Val: r.Intn(len(in.Values))})
+		default:
+			provs = append(provs, Prov{T: pick(ms, T-ms), Beh: "respond", Val: r.Intn(len(in.Values))})
+		}
+	}
+	// node order is immaterial to the strategy (a Go map) but not to a reader
+	for i := len(provs) - 1; i > 0; i-- {
+		j := r.Intn(i + 1)
+		provs[i], provs[j] = provs[j], provs[i]
+	}
+	in.Provs = provs
+	if att {
+		switch r.Intn(6) {
+		case 0:
+			in.Threshold = 0
+		case 1:
+			in.Threshold = early + 1
+		default:
+			in.Threshold = r.Range(1, early)
+		}
+	}
+	return true
+}
+
 // hasRules: the strategy rejects some responses
 func hasRules(st string) bool {
 	switch st {
@@ -992,6 +1164,26 @@ func gen1(r *Rand) Input {
 		tags["invalid-high-scorer"] = true
 	}
 
+	// family: a node that answers for ANOTHER slot than the one asked (it is ahead, behind, or
+	// mis-routes the request).  Its data is self-consistent (target epoch = epoch of ITS slot) and so
+	// has the wrong target epoch for the duty, or carries the duty's target epoch with a foreign slot
+	if family(in.Strategy) == "att" && r.Chance(1, 3) {
+		k := r.Range(1, 2)
+		for i := 0; i < k; i++ {
+			in.Values = append(in.Values, genForeignSlot(r, &in))
+		}
+		tags["foreign-slot"] = true
+	}
+	// the duty slot is not the chain's current slot (late duty at an epoch boundary, early request)
+	if r.Chance(1, 6) {
+		in.NowOff = []int64{int64(in.SPE), -int64(in.SPE), 1, -1, 2 * int64(in.SPE)}[r.Intn(5)]
+		tags["now-differs"] = true
+	}
+	// the service instance has served another request before this one
+	if r.Chance(1, 8) {
+		in.Warm = true
+	}
+
 	// times
 	grid := []int64{1 * ms, 7 * ms, S - ms, S - 1, S + 1, S + ms, (S + T) / 2, T - ms, T - 1, T + 1, T + ms, 2 * T}
 	ties := r.Chance(1, 6)
@@ -1042,7 +1234,15 @@ func gen1(r *Rand) Input {
 		}
 		in.Provs = append(in.Provs, p)
 	}
-	if tp == "majatt" {
+	minority := false
+	if (tp == "majatt" || tp == "majroot") && r.Chance(1, 3) {
+		minority = minorityFirst(r, &in)
+		if minority {
+			tags["minority-first"] = true
+			n = len(in.Provs)
+		}
+	}
+	if tp == "majatt" && !minority {
 		switch r.Intn(4) {
 		case 0:
 			in.Threshold = 0
@@ -1139,6 +1339,9 @@ func structuralTags(in *Input) []string {
 	}
 	if in.Trace {
 		add("trace-level")
+	}
+	if in.Warm {
+		add("warm-instance")
 	}
 	return tags
 }
